@@ -22,6 +22,6 @@ Definition fcop_of (o : tree_op) : @cop float float float fnode :=
   | TQry k a g => CQ k a g
   end.
 Definition fc_step (s : fcstate) (o : tree_op) : @cres float * fcstate :=
-  c_step ltb fgt eqb fmin3 fcontrib SMALLEST s (fcop_of o).
+  c_step ltb fgt fmin3 fcontrib SMALLEST s (fcop_of o).
 (* row i of the two arrays *)
 Definition fc_row (s : fcstate) (i : Z) : @tnode float float fnode := hget (th (c_tree s)) i.
